@@ -806,6 +806,79 @@ fn gen_random(rng: &mut Rng, max_ops: usize, max_handles: usize) -> Case {
     Case { keys, ops, observe_every_op: !rng.chance(1, 8) }
 }
 
+// ------------------------------------------------------------------------------------------
+// long dependency paths (beyond the model's handful of handles)
+// ------------------------------------------------------------------------------------------
+
+/// A chain p(i+1) <- {p(i)} of `n` cached proofs, inserted premise-first or dependents-first; then
+/// p(cut) is invalidated: exactly the proofs below index `cut` stay proven.
+fn run_long_chain(n: usize, cut: usize, dependents_first: bool) -> Option<(String, String)> {
+    let mut g = ProofGraph::new();
+    let h = |i: usize| FactHandle::new(i as u64 + 1);
+    let key = |i: usize| FactKey::from_pattern(&format!("L{}.ok == true", i));
+    let order: Vec<usize> = if dependents_first { (0..n).rev().collect() } else { (0..n).collect() };
+    for i in order {
+        let (prem, pk) = if i == 0 { (vec![], vec![]) } else { (vec![h(i - 1)], vec![format!("L{}.ok == true", i - 1)]) };
+        g.insert_proof(h(i), key(i), "rule".to_string(), prem, pk);
+    }
+    let unproven_before: Vec<usize> = (0..n).filter(|i| !g.is_proven(&key(*i))).collect();
+    if !unproven_before.is_empty() {
+        return Some(("is-proven".into(), format!("chain of {} proofs ({}): {} proofs are not reported proven although nothing was invalidated (first L{})", n, if dependents_first { "dependents inserted first" } else { "premises inserted first" }, unproven_before.len(), unproven_before[0])));
+    }
+    g.invalidate_handle(&h(cut));
+    let still: Vec<usize> = (cut..n).filter(|i| g.is_proven(&key(*i))).collect();
+    let lost: Vec<usize> = (0..cut).filter(|i| !g.is_proven(&key(*i))).collect();
+    if !still.is_empty() {
+        return Some((
+            "proven-without-surviving-justification".into(),
+            format!("chain of {} proofs ({}), L{} invalidated: {} proofs resting on it are still reported proven (first L{}, last L{}): the invalidation stopped short", n, if dependents_first { "dependents inserted first" } else { "premises inserted first" }, cut, still.len(), still[0], still[still.len() - 1]),
+        ));
+    }
+    if !lost.is_empty() {
+        return Some(("unproven-with-surviving-justification".into(), format!("chain of {} proofs, L{} invalidated: {} proofs ABOVE it are reported unproven (first L{})", n, cut, lost.len(), lost[0])));
+    }
+    None
+}
+
+fn long_json(n: usize, cut: usize, df: bool) -> Json {
+    json!({"kind": "long-chain", "proofs": n, "invalidate": cut, "dependents_inserted_first": df})
+}
+
+fn run_long_guarded(n: usize, cut: usize, df: bool) -> Vec<Violation> {
+    let r = std::thread::Builder::new().stack_size(256 << 20).spawn(move || pan::catch(|| run_long_chain(n, cut, df))).ok().and_then(|h| h.join().ok());
+    match r {
+        Some(Ok(Some((clause, detail)))) => vec![Violation { clause: clause.clone(), sig: format!("C17|{}|long-chain", clause), detail, case: long_json(n, cut, df) }],
+        Some(Err(p)) => vec![Violation { clause: "no-panic".into(), sig: format!("C17|no-panic|{}|{}", p.class(), p.frame), detail: format!("panic: {} at {}:{}", p.msg, p.file, p.line), case: long_json(n, cut, df) }],
+        _ => vec![],
+    }
+}
+
+fn explore_long(cli: &Cli, st: &mut Stats) {
+    let sizes: &[usize] = match cli.tier {
+        Tier::Quick => &[5, 70, 300, 1100, 2500],
+        Tier::Thorough => &[5, 70, 300, 1100, 2500, 10_000],
+    };
+    for &n in sizes {
+        for df in [false, true] {
+            for cut in [0, 1, n / 3, n - 2, n - 1] {
+                if cut >= n {
+                    continue;
+                }
+                st.eval();
+                st.count("long_chains_of_cached_proofs");
+                st.max("max::proofs_in_one_long_chain", n as u64);
+                let vs = run_long_guarded(n, cut, df);
+                if vs.is_empty() {
+                    st.nontrivial(hash_of(&(n, cut, df)));
+                }
+                for v in vs {
+                    st.violation(v);
+                }
+            }
+        }
+    }
+}
+
 struct C17;
 
 impl Check for C17 {
@@ -813,7 +886,7 @@ impl Check for C17 {
         "C17"
     }
     fn rule(&self) -> String {
-        "exhaustive families (handles / keys of the handles / depth L): quick 5 / K0,K1,K2,K0,K1 / 4 and 3 / K0,K1,K0 / 6; thorough additionally 4 / K0,K1,K2,K0 / 5 and 5 / K0,K1,K2,K0,K1 / 5. A family enumerates every sequence of length 1..=L over its alphabet {insert_proof(h, P): h any handle, P any set of <= 2 other handles} + {invalidate_handle(h)} (60 ops for 5 handles, 32 for 4, 15 for 3) that respects the statement's proviso (no handle that has been invalidated, directly or by losing all justifications, is used as a premise later); shared keys put re-proof under a fresh handle into the families. Each sequence is compared with the reference support model at its end (so every prefix is judged, without observer calls in between; a prefix that already violates is not extended), and every sequence of length L-1 is also run with comparison after every op. random: histories of 1..=9 ops over 2..=5 handles (thorough: every fourth one 1..=14 ops over up to 7 handles), 0-3 premises, random key sharing, occasional self-premise and duplicate premise, half of them 'clean' (premises inserted before dependents or never inserted), 7/8 compared after every op. A case is non-trivial when at least one invalidation killed a justification of a cached proof; distinct by (key assignment, op sequence, observation mode).".into()
+        "LONG chains (beyond the statement's 5 handles): chains p(i+1)<-{p(i)} of 5..2500 (thorough 10000) cached proofs, inserted premise-first and dependents-first, one proof invalidated at the root, near it, a third of the way, near the end; exactly the proofs above it stay proven. exhaustive families (handles / keys of the handles / depth L): quick 5 / K0,K1,K2,K0,K1 / 4 and 3 / K0,K1,K0 / 6; thorough additionally 4 / K0,K1,K2,K0 / 5 and 5 / K0,K1,K2,K0,K1 / 5. A family enumerates every sequence of length 1..=L over its alphabet {insert_proof(h, P): h any handle, P any set of <= 2 other handles} + {invalidate_handle(h)} (60 ops for 5 handles, 32 for 4, 15 for 3) that respects the statement's proviso (no handle that has been invalidated, directly or by losing all justifications, is used as a premise later); shared keys put re-proof under a fresh handle into the families. Each sequence is compared with the reference support model at its end (so every prefix is judged, without observer calls in between; a prefix that already violates is not extended), and every sequence of length L-1 is also run with comparison after every op. random: histories of 1..=9 ops over 2..=5 handles (thorough: every fourth one 1..=14 ops over up to 7 handles), 0-3 premises, random key sharing, occasional self-premise and duplicate premise, half of them 'clean' (premises inserted before dependents or never inserted), 7/8 compared after every op. A case is non-trivial when at least one invalidation killed a justification of a cached proof; distinct by (key assignment, op sequence, observation mode).".into()
     }
     fn assumptions(&self) -> Vec<String> {
         vec![
@@ -826,6 +899,7 @@ impl Check for C17 {
     }
     fn explore(&self, cli: &Cli, st: &mut Stats) {
         let nthreads = cli.threads;
+        explore_long(cli, st);
         // one exhaustive family = (key of every handle, depth)
         let sweep = |keys: Vec<u8>, depth: usize, st: &mut Stats| {
             let n = keys.len();
@@ -921,6 +995,9 @@ impl Check for C17 {
         }
     }
     fn replay(&self, cli: &Cli, case: &Json) -> Vec<Violation> {
+        if case["kind"].as_str() == Some("long-chain") {
+            return run_long_guarded(case["proofs"].as_u64().unwrap_or(5) as usize, case["invalidate"].as_u64().unwrap_or(0) as usize, case["dependents_inserted_first"].as_bool().unwrap_or(false));
+        }
         let Some(c) = Case::from_json(case) else {
             return vec![Violation {
                 clause: "harness".into(),
